@@ -19,6 +19,9 @@ var LetPrefixes = []string{
 	"let n = null; let m = -n; ",
 	"let n = p; ",
 	"let m = 1; let n = (m); ",
+	"let n = 1; let m = n + 1; let n = m * n; ",
+	"let k = 2; let m = k; let n = m - k; ",
+	"let n = 1; let n = n + 1; let n = n + n; ",
 }
 
 type useSite struct {
